@@ -125,6 +125,14 @@ def strictAssignmentOk (T : Template) (d : Str × Bool) : Bool :=
   flags.any (fun f => !f.special && f.dest == d.1 && f.const == some d.2) &&
   resolveKey T d.1 == .sets d.1 true false
 
+/-- for a strict assignment `(d, b)`: the command line has a flag that sets `d` to the *opposite* value (what
+    `--strict --no-x` / `--allow-…` needs), and the config-file spelling of that flag resolves to `(d, !b)` too,
+    so "strict plus the explicit opposite" can be written in every source -/
+def strictOppositeOk (T : Template) (d : Str × Bool) : Bool :=
+  flags.any (fun f => !f.special && f.dest == d.1 && f.const == some (!d.2) &&
+    (f.strings.filter isLong).any (fun x => resolveBool T (iniSpelling x) (s "True") == some (d.1, !d.2))) &&
+  resolveBool T d.1 (if d.2 then s "False" else s "True") == some (d.1, !d.2)
+
 /-! ## the obligations as Booleans over the whole tables -/
 
 def cliIniAgreeB : Bool := flags.all (flagAgrees genTemplate)
@@ -132,6 +140,8 @@ def destSettableB : Bool := flags.all (destSettable genTemplate)
 def tomlIniSameKeysB : Bool := iniKeys == tomlKeys
 def perModuleInlineOkB : Bool := perModule.all (perModuleSettable genTemplate)
 def strictOkB : Bool := strictFlags.all (strictAssignmentOk genTemplate)
+def strictOppositeB : Bool := strictFlags.all (strictOppositeOk genTemplate) && strictFlags.all (strictOppositeOk tomlTemplate)
+def strictAssign : Changes := strictFlags.map (fun d => (d.1, Val.bool d.2))
 def listAttrsTypedB : Bool := attrs.all (listAttrTyped iniKeys)
 def listAttrsTypedTomlB : Bool := attrs.all (listAttrTyped tomlKeys)
 /-- the exemption lists name only flags/options that exist (a stale exemption is an error, too) -/
